@@ -65,6 +65,9 @@ type Options struct {
 	ValidateModels int
 	NoSlice       bool
 	MergeDebug    bool
+	JSONStrict    bool
+	DeadlineS     int
+	OpaqueNumbers bool
 }
 
 // Engine: one per harness run.
@@ -148,6 +151,9 @@ func NewEngine(prog *ssa.Program, opt Options, harness string) *Engine {
 		}
 	}
 	e.zone = newZoneModel(e)
+	if opt.DeadlineS > 0 {
+		e.deadline = time.Now().Add(time.Duration(opt.DeadlineS) * time.Second)
+	}
 	return e
 }
 
